@@ -205,7 +205,32 @@ def _match_lpnormalization_pattern(
     axes = _const_axes(reduce_inputs[1]) if len(reduce_inputs) > 1 else None
     if axes is None or len(axes) != 1:
         return None
-    return int(p), int(axes[0])
+    axis = int(axes[0])
+
+    # LpNormalization divides every slice along `axis` by its own norm, i.e. the
+    # norm is broadcast back with the reduced axis kept (keepdims semantics).
+    # The denominator reaches the Div through Reshape/Expand; make sure the value
+    # that gets expanded really has the singleton at `axis` (x / sum(x, axis=1)
+    # without keepdims broadcasts the norms along the *last* axis instead).
+    lhs_rank = len(_shape_tuple(lhs_val))
+    broadcast_src = rhs_val
+    while True:
+        node = _producer(broadcast_src)
+        if getattr(node, "op_type", "") not in {"Expand", "Identity", "Cast", "CastLike"}:
+            break
+        node_inputs = list(getattr(node, "inputs", ()))
+        if not node_inputs or not isinstance(node_inputs[0], ir.Value):
+            break
+        broadcast_src = node_inputs[0]
+    src_dims = _shape_tuple(broadcast_src)
+    if lhs_rank == 0 or len(src_dims) != lhs_rank:
+        return None
+    norm_axis = axis if axis >= 0 else axis + lhs_rank
+    if not 0 <= norm_axis < lhs_rank:
+        return None
+    if not (isinstance(src_dims[norm_axis], (int, np.integer)) and int(src_dims[norm_axis]) == 1):
+        return None
+    return int(p), axis
 
 
 @register_primitive(
